@@ -537,6 +537,99 @@ func c19RunRelay(t *testing.T, c c19Relay) (sig, msg string) {
 	return
 }
 
+// ---------------------------------------------------------------- the public Ping helper
+
+type c19Ping struct {
+	IntervalMs, TimeoutMs int
+	Peer                  string // silent own@1 own@late foreign third
+}
+
+func c19RunPing(t *testing.T, c c19Ping) (sig, msg string) {
+	res := inBubble(t, func(b *bubble) {
+		installDetRand()
+		pi, pt := time.Duration(c.IntervalMs)*time.Millisecond, time.Duration(c.TimeoutMs)*time.Millisecond
+		nd, err := newNode("o", ip4(1), func(cf *ml.Config) { cf.ProbeInterval = pi; cf.ProbeTimeout = pt })
+		must(err)
+		o := b.track(nd)
+		advance(time.Microsecond)
+		o.T.TakeSent()
+		type resT struct {
+			rtt time.Duration
+			err error
+		}
+		done := make(chan resT, 1)
+		t0 := time.Now()
+		go func() {
+			rtt, err := o.M.Ping("x", simTCPAddr{"10.0.0.2:7946"})
+			done <- resT{rtt, err}
+		}()
+		settle()
+		var seq uint32
+		for _, p := range o.T.TakeSent() {
+			leaves, _ := explode(p.Buf)
+			for _, l := range leaves {
+				var pg ml.VPing
+				if l[0] == ml.VPingMsg && ml.VDecode(l[1:], &pg) == nil {
+					seq = pg.SeqNo
+				}
+			}
+		}
+		if seq == 0 {
+			sig, msg = "no-ping-sent", fmt.Sprint(c)
+			return
+		}
+		ack := func(sq uint32, at time.Duration, from string) {
+			if d := at - time.Since(t0); d > 0 {
+				time.Sleep(d)
+			}
+			settle()
+			out, _ := ml.VEncode(ml.VAckRespMsg, &ml.VAckResp{SeqNo: sq}, false)
+			o.T.Deliver(out, simAddr(from))
+			settle()
+		}
+		answered := false
+		switch c.Peer {
+		case "own@1":
+			ack(seq, time.Millisecond, "10.0.0.2:7946")
+			answered = true
+		case "own@late":
+			ack(seq, pt+time.Millisecond, "10.0.0.2:7946")
+		case "foreign":
+			ack(seq+5, time.Millisecond, "10.0.0.2:7946")
+		case "third":
+			ack(seq, time.Millisecond, "10.0.0.77:7946")
+			answered = true // the number decides, not the sender
+		}
+		lim := pt
+		if pi > lim {
+			lim = pi
+		}
+		time.Sleep(lim + 10*time.Millisecond - time.Since(t0))
+		settle()
+		select {
+		case r := <-done:
+			switch {
+			case answered && r.err != nil:
+				sig, msg = "ping-answered-but-error", fmt.Sprintf("%+v: %v", c, r.err)
+			case !answered && r.err == nil:
+				sig, msg = "ping-unanswered-reported-success", fmt.Sprintf("%+v: Ping returned rtt=%v, nil although no ack with its number arrived within the probe timeout", c, r.rtt)
+			}
+		default:
+			sig, msg = "ping-did-not-return", fmt.Sprintf("%+v", c)
+		}
+		if n := o.M.VSnapshot().AckHandlers; n != 0 && sig == "" {
+			sig, msg = "pending-probe-record-leaked", fmt.Sprintf("%+v: %d records after max(interval, timeout)", c, n)
+		}
+	})
+	if res.Panic != nil {
+		return "panic", fmt.Sprintf("%+v: %v", c, res.Panic)
+	}
+	if res.Leak {
+		return "goroutine-leak", fmt.Sprintf("%+v", c)
+	}
+	return
+}
+
 // idle node: acks/nacks for unknown numbers have no effect
 func c19RunIdle(t *testing.T) (sig, msg string) {
 	inBubble(t, func(b *bubble) {
@@ -564,6 +657,7 @@ func c19RunIdle(t *testing.T) (sig, msg string) {
 type c19Replay struct {
 	Probe *c19Case  `json:"probe,omitempty"`
 	Relay *c19Relay `json:"relay,omitempty"`
+	Ping  *c19Ping  `json:"ping,omitempty"`
 }
 
 func TestC19(t *testing.T) {
@@ -576,6 +670,8 @@ func TestC19(t *testing.T) {
 			sig, msg = c19RunProbe(t, *rp.Probe)
 		} else if rp.Relay != nil {
 			sig, msg = c19RunRelay(t, *rp.Relay)
+		} else if rp.Ping != nil {
+			sig, msg = c19RunPing(t, *rp.Ping)
 		}
 		t.Logf("replay: %q %s", sig, msg)
 		if sig != "" {
@@ -725,6 +821,25 @@ func TestC19(t *testing.T) {
 				rep.Violate(sig, msg, c19Replay{Relay: &c})
 			} else {
 				rep.Outcome(fmt.Sprintf("relay nack=%v %s %s ok", nk, tg, rc.se))
+			}
+		}
+	}
+	// the public Ping helper, with the usual and the inverted relation of interval and timeout
+	for _, im := range [][2]int{{1000, 300}, {200, 1000}, {500, 500}} {
+		for _, peer := range []string{"silent", "own@1", "own@late", "foreign", "third"} {
+			idx++
+			if !mine(idx) {
+				continue
+			}
+			c := c19Ping{im[0], im[1], peer}
+			journal("C19 ping %+v", c)
+			sig, msg := c19RunPing(t, c)
+			rep.Transitions++
+			rep.Evaluations++
+			if sig != "" {
+				rep.Violate(sig, msg, c19Replay{Ping: &c})
+			} else {
+				rep.Outcome("ping-api ok")
 			}
 		}
 	}
